@@ -542,6 +542,8 @@ def length(R):
                 to = rd.tuple_origin(d, v)           # decoded into a local first
                 if to is not None:
                     v = to[0]
+                else:
+                    v = rd.origin(d, v)[0]           # the 7-bit field kept under another name first
             bits = C04._bits(v, {x.id for x in ast.walk(v) if isinstance(x, ast.Name) and x.id not in ('bool', 'int')}) \
                 if v is not None else None
             if bits is not None and bits[1:] == (0, 127):
